@@ -26,3 +26,33 @@ func (v *VerifBackoff) Reset()                                 { v.b.reset() }
 
 // VerifRoute exposes Router.route (the entry point used by the receive loops).
 func VerifRoute(r *Router, s Sender, p stanza.Packet) { r.route(s, p) }
+
+// VerifSetTransport replaces the transport of a client built by NewClient (no dialling happens in NewClient).
+func VerifSetTransport(c *Client, t Transport) { c.transport = t }
+
+// VerifTransport returns the client's current transport.
+func VerifTransport(c *Client) Transport { return c.transport }
+
+// VerifSetSMResume sets the unexported Config.streamManagementResume.
+func VerifSetSMResume(cfg *Config, v bool) { cfg.streamManagementResume = v }
+
+// VerifRecv runs the client's receive loop in the calling goroutine.
+func VerifRecv(c *Client, keepaliveQuit chan<- struct{}) { c.recv(keepaliveQuit) }
+
+// VerifComponentRecv runs the component's receive loop in the calling goroutine.
+func VerifComponentRecv(c *Component) { c.recv() }
+
+// VerifSetComponentTransport sets the transport of a component.
+func VerifSetComponentTransport(c *Component, t Transport) { c.transport = t }
+
+// VerifKeepalive runs the keepalive loop in the calling goroutine.
+func VerifKeepalive(t Transport, interval time.Duration, quit <-chan struct{}) { keepalive(t, interval, quit) }
+
+// VerifNewSession runs the session negotiation on the client's current transport.
+func VerifNewSession(c *Client, state SMState) (*Session, error) { return NewSession(c, state) }
+
+// VerifClientConnect runs Client.connect (negotiation + state announcement, no receive loop).
+func VerifClientConnect(c *Client) error { return c.connect() }
+
+// VerifSessionTransport sets the unexported transport of a Session value built by the harness.
+func VerifSessionTransport(s *Session, t Transport) { s.transport = t }
